@@ -631,4 +631,13 @@ FIXED = [
     "from t | group {g} (derive {r = rank a} | append (from u | derive {q = row_number this}))",
     "from t | group {g} (take 2 | append (from u | group {k} (take 1)))",
     "from t | window rolling:3 (derive {m = sum a} | append (from u | derive {q = sum d}))",
+    # lowering.rs since a131b2a / 287b286, transforms.rs since 8204886: compile errors (or a zero-row literal) where the Lowerer
+    # used to pass a name through or panic
+    "let tab = (from t | take 3)\nfrom u | derive {x = tab}",
+    "let tab = (from t | take 3)\nfrom u | derive {x = s\"(SELECT max(a) FROM {tab})\"}",
+    "from u | derive {x = std}",
+    "from [{a = 1, 2}]",
+    "from [{a = 1, b = x}]",
+    "from_text format:csv \"a,b\\n\" | derive {c = a + 1}",
+    "from_text format:json '{\"columns\": [\"a\", \"b\"], \"data\": []}' | window rolling:2 (derive {m = sum a}) | join t (==a)",
 ]
